@@ -128,7 +128,7 @@ LSQ_CASES = [dict(weights=w, fixed=f) for w in ("none", "linear", "quadratic", "
              dict(weights="none", fixed="alpha"), dict(weights="quadratic", fixed="beta"), dict(weights="none", fixed="delta+beta"), dict(weights="none", fixed="alpha+beta+delta")]
 
 
-@contract(EW + "._fit_lsq", ["C13", "C11", "C18"], LSQ_CASES, name="ew.fit_lsq")
+@contract(EW + "._fit_lsq", ["C13", "C11", "C18", "C09"], LSQ_CASES, name="ew.fit_lsq")
 class FitLsq(Contract):
     """least squares: data sorted, plotting positions (i-0.5)/n on the sorted data, weights as specified and aligned
     with the sorted data, fixed delta kept (alpha, beta estimated for it), free delta = fmin of the x-space
